@@ -300,6 +300,7 @@ def run(ctx, res):
     semantic = check_cycexp_value(res, facts, ctx.tier)
     check_cycexp(res, facts, semantic)
     check_cubic_norm(res, facts)
+    check_temp_in_place(res, facts, ctx.facts(["shapes"]))
     from rules import lincomb
     lincomb.check_field_ops(res, facts, ("QuadExtField<", "CubicExtField<"), 56)
     return {
@@ -362,3 +363,78 @@ def check_cycexp_value(res, facts, tier):
             rule.noverdict(key, "shape not modelled (%s)" % verdict[1], fn.loc)
             decided.append(False)
     return len(decided) == 2 and all(decided)
+
+
+# ---- R-TEMPINPLACE ----------------------------------------------------------------------------------------------------
+
+def _local_uses(fn):
+    """local -> number of operand / borrow mentions in the whole body (destinations are not uses)"""
+    from collections import Counter
+    cnt = Counter()
+
+    def base(p):
+        return p if isinstance(p, int) else (p[0] if isinstance(p, list) and p and isinstance(p[0], int) else None)
+
+    def walk(o):
+        if isinstance(o, dict):
+            for k, v in o.items():
+                if k in ("m", "c") or (k == "p" and o.get("k") in ("ref", "addr", "len", "discr", "copy")):
+                    b = base(v)
+                    if b is not None:
+                        cnt[b] += 1
+                        continue
+                if k in ("d", "ln", "f"):
+                    continue
+                walk(v)
+        elif isinstance(o, list):
+            for v in o:
+                walk(v)
+    for b in fn.bbs:
+        walk(b["s"])
+        walk({k: v for k, v in b["t"].items() if k not in ("d",)})
+    return cnt
+
+
+def _temp_in_place_hits(fn):
+    defs = fn.defs()
+    uses = None
+    hits = []
+    for bb, t in fn.calls():
+        n = t["f"].get("name") or ""
+        if not (n.endswith("_in_place") or n.endswith("_assign")) or not t["args"] or not isinstance(t["args"][0], dict):
+            continue
+        r = t["args"][0].get("m")
+        if not isinstance(r, int) or len(defs.get(r, ())) != 1:
+            continue
+        d = defs[r][0]
+        if d[2] != "assign" or d[3]["r"].get("k") != "ref" or not d[3]["r"].get("mut") or not isinstance(d[3]["r"].get("p"), int):
+            continue
+        tmp = d[3]["r"]["p"]
+        td = defs.get(tmp, ())
+        if len(td) != 1 or td[0][2] != "call" or td[0][3]["f"].get("name") != "clone":
+            continue
+        uses = uses or _local_uses(fn)
+        dest = t["d"] if isinstance(t.get("d"), int) else None
+        if uses[tmp] == 1 and uses[r] == 1 and (dest is None or uses[dest] == 0):
+            hits.append((n, t.get("ln")))
+    return hits
+
+
+def check_temp_in_place(res, facts, shapes):
+    rule = res.rule("R-TEMPINPLACE", "no `_in_place` / `_assign` operation is applied to a temporary clone whose result is then discarded (the receiver stays unchanged while the function reports success)", 2)
+    witness, n_fns, n_sites = {}, 0, 0
+    for fn in shapes.fns(unit="shapes"):
+        if fn.name in ("in_place_on_temporary", "in_place_on_temporary_ok"):
+            witness[fn.name] = bool(_temp_in_place_hits(fn))
+    for fn in facts.fns(unit="ws", crate="ark_ff"):
+        if "::tests::" in fn.id or "::fields::" not in fn.id:
+            continue
+        n_fns += 1
+        n_sites += sum(1 for _, t in fn.calls() if (t["f"].get("name") or "").endswith(("_in_place", "_assign")))
+        for n, ln in _temp_in_place_hits(fn):
+            rule.bad("ark_ff|%s|%s" % (fn.id[-90:], n), "`%s` is applied to a temporary clone and the result is dropped: the receiver is left as it was (e.g. x.inverse_in_place() reporting Some(x) with x unchanged)" % n, fn.loc)
+    if witness.get("in_place_on_temporary") is True and witness.get("in_place_on_temporary_ok") is False:
+        rule.ok("witness|in_place_on_temporary", "positive example matched, stored-back twin accepted")
+        rule.ok("witness|scan", "%d field functions, %d in-place call sites scanned" % (n_fns, n_sites))
+    else:
+        rule.bad("witness|in_place_on_temporary", "the positive example in /verif/witness/shapes was not matched (or its twin was): rule has gone blind (%s)" % witness)
